@@ -3,6 +3,13 @@
 #ifndef VHARNESS_H
 #define VHARNESS_H
 #include "ir2c_rt.h"
+/* MODEL: the harness drives the generated C (under CBMC, or natively with -DMODEL_NATIVE for debugging / validating the model);
+   otherwise it is linked against the real build (replay) */
+#if defined(__CPROVER__) || defined(MODEL_NATIVE)
+#define MODEL 1
+#else
+#define MODEL 0
+#endif
 #ifdef __CPROVER__
 #define CHECK(c, msg) __CPROVER_assert((c), msg)
 #define ASSUME(c) __CPROVER_assume(c)
@@ -25,7 +32,11 @@
 #define LOAD_INPUTS() do { memset(&IN, 0, sizeof IN); REPLAY_ASSIGN(); } while (0)
 #define WITNESS_POINT() ((void)0)
 #define HARNESS_MAIN int main(void) { harness(); printf("REPLAY-PASS\n"); return 0; }
-#define IS_REPLAY 1
+#define IS_REPLAY (!MODEL)
+#ifdef MODEL_NATIVE
+#define __CPROVER_assert(c, m) CHECK(c, m)
+#define __CPROVER_assume(c) ASSUME(c)
+#endif
 #endif
 u8 *env_alloc(u64 n);   /* exact-size heap object (CBMC: bounds-checked; native: ASan-checked) */
 #endif
